@@ -193,6 +193,7 @@ def check_string(svg, d, out, tags=None, postops=True):
 
 class Faults1(SubCheck):
     name = "faults1"
+    case_cpu_limit = 20.0     # "terminates promptly": a short string that keeps the parser busy this long is reported
 
     def __init__(self, svg, tier, seed):
         self.svg = svg
@@ -246,6 +247,7 @@ class Faults1(SubCheck):
 class Faults2(SubCheck):
     """all pairs of faults (a fault applied to a faulted string) over the depth <= 1 corpus"""
     name = "faults2"
+    case_cpu_limit = 20.0     # "terminates promptly": a short string that keeps the parser busy this long is reported
 
     def __init__(self, svg, tier, seed):
         self.svg = svg
@@ -294,6 +296,7 @@ class Fragments(SubCheck):
     """every command letter with 0..n operands, with / without a preceding move (and after a close),
     wrong flag values, arcs and relative commands with no current point"""
     name = "fragments"
+    case_cpu_limit = 20.0     # "terminates promptly": a short string that keeps the parser busy this long is reported
 
     def __init__(self, svg):
         self.svg = svg
